@@ -45,7 +45,13 @@ func planFor(prop string) staticPlan {
 		p.opts = o
 		p.rule = base + "at least one method (half of the cases with -skip-ensure)"
 	case "C09":
-		p.profiles = []gen.Profile{gen.ProfGeneric, gen.ProfGeneric, gen.ProfGeneral}
+		// generic interfaces whose constraints come from packages with clashing names, requested together with
+		// other interfaces (state shared between the mocks of one run)
+		clash := gen.ProfGeneric
+		clash.SameNames, clash.NDeps = 0.8, 7
+		o.Multi = 4
+		p.opts = o
+		p.profiles = []gen.Profile{gen.ProfGeneric, clash, gen.ProfGeneral, clash}
 		p.nontrivial = func(c *gen.Case, f ostatic.Facts) bool { return f.Generic > 0 && f.InstOK > 0 }
 		p.rule = base + "a generic interface for which at least one concrete instantiation was accepted and compared"
 	case "C10":
@@ -57,7 +63,9 @@ func planFor(prop string) staticPlan {
 		p.profiles = []gen.Profile{gen.ProfGeneral, syncSrc, gen.ProfImports, gen.ProfGeneric, httpSrc, gen.ProfNaming}
 		p.rule = base + "at least one method; destinations and -skip-ensure over-sampled"
 	case "C11":
-		p.profiles = []gen.Profile{gen.ProfImports, gen.ProfImports, gen.ProfGeneral, gen.ProfNaming}
+		syncSrc := gen.ProfImports
+		syncSrc.SrcName = "sync"
+		p.profiles = []gen.Profile{gen.ProfImports, syncSrc, gen.ProfImports, gen.ProfGeneral, gen.ProfNaming, gen.ProfCluster}
 		p.nontrivial = func(c *gen.Case, f ostatic.Facts) bool { return f.Imports >= 3 }
 		p.rule = base + "output with at least three imports"
 	case "C12":
@@ -254,6 +262,7 @@ func runStatic(prop, tier string) int {
 		run.Add("user_names_asserted_kept", facts.KeptOK)
 		run.Add("derived_names_asserted", facts.DerivedOK)
 		run.Add("names_legitimately_renamed", facts.Renamed)
+		run.Add("names_asserted_after_timeline_replay", facts.StaleNameAsserted)
 		if i%97 == 0 && facts.Methods > 0 {
 			run.Sample(j.c.Describe())
 		}
